@@ -8,7 +8,7 @@ if ! git apply --3way /verif/seeded/$S/patch.diff >/tmp/run_seed_apply.log 2>&1;
   git reset -q --hard HEAD; echo "$S vs $P: PATCH-CONFLICT (seed overlaps a later fix/hook commit)"; exit 7
 fi
 git reset -q   # keep the change in the working tree only
-cd /verif && ./check $P --tier $T > /tmp/run_seed_$S_$P.log 2>&1; RC=$?
+cd /verif && ./check $P --tier $T > /tmp/run_seed_${S}_${P}.log 2>&1; RC=$?
 cd /repo && git checkout -q -- .
-SIGS=$(grep -A1 '^VIOLATION' /tmp/run_seed_$S_$P.log | grep signature | sed 's/  signature: //' | head -4 | tr '\n' ';')
+SIGS=$(grep -A1 '^VIOLATION' /tmp/run_seed_${S}_${P}.log | grep signature | sed 's/  signature: //' | head -4 | tr '\n' ';')
 echo "$S vs $P [$T]: exit=$RC $( [ $RC -eq 1 ] && echo DETECTED || echo MISSED ) :: $SIGS"
